@@ -2,10 +2,17 @@
    Same protocol model (Model/Conn.v), all schedules.  `first_res s` is what the FIRST Error() call after
    Stream returned, `rreason s` the reader goroutine's exit reason (its local `err`), `canc_at_err s` the
    value of `s.ctx.Err() == context.Canceled` when that Error() call evaluated its filter.
-   Theorems hold for every cfg with d9_wrong = false, i.e. for the pinned code AND for the planned repairs.
+   cfg has four flags: fix_d9, fix_d10 (repairs of D9/D10), d9_wrong (the trap variant) and fix_k2 (the repair
+   of K2: Stream records in s.endedUncancelled whether its context was live when parseEvents returned, and
+   Error()'s first filter case is `s.ctx.Err() == context.Canceled && !s.endedUncancelled`).
+   cfg_pinned = no repair, cfg_fixed = D9+D10, cfg_fixed2 = D9+D10+K2 (the current tree), cfg_trap = the trap.
+   The first group of theorems holds for every cfg with d9_wrong = false — pinned, partly and fully repaired.
+   The K2 refutations need fix_k2 c = false; the strong forms (`_strong`) need fix_k2 c = true.
+   `canc_pre_pe s` (ghost) = the caller cancelled before parseEvents returned, i.e. before the step at which
+   Stream samples its context; C06_canc_pre_pe_sound ties it to the schedule.
    Only statements closed by `exact`, non-vacuity Examples and Print Assumptions. *)
 From GB Require Import Base.Prelude Model.Conn Model.ConnExplore.
-From GB Require Import Proofs.ConnInv Proofs.ConnInv2 Proofs.ConnStructure Proofs.ConnProofs2.
+From GB Require Import Proofs.ConnInv Proofs.ConnInv2 Proofs.ConnInv3 Proofs.ConnTrace Proofs.ConnStructure Proofs.ConnProofs2.
 Open Scope nat_scope.
 
 (* stream_errs: a handler failure, a rejected event (invalid / decode / table lookup / column mismatch /
@@ -39,11 +46,12 @@ Theorem C06_canc_at_err_sound : forall c s, reachable c s -> canc_at_err s = tru
 Proof. exact canc_at_err_sound. Qed.
 Print Assumptions C06_canc_at_err_sound.
 
-(* K2 (known finding, pinned by TestStreamer_Error): the DESIGN form with "cancelled before Stream
-   returned" is false — on the pinned code and after the repairs.  Schedule: ConnectOk, StartOk,
+(* K2 (pinned by TestStreamer_Error before its repair): the DESIGN form with "cancelled before Stream
+   returned" is false on every tree without the K2 repair — the pinned code and the one with only D9/D10
+   repaired.  Schedule: ConnectOk, StartOk,
    Arrive ERR 1236, ReaderRecv, ReaderPutErr, ReaderCloseErr, ReaderCloseEv, ParserSeeClosed, StreamDefer,
    StreamReturn, Cancel, CallError, ErrorStep: Stream nil, Error() nil, the master's error is lost *)
-Theorem C06_error_reports_refuted : forall c, d9_wrong c = false -> exists ls s,
+Theorem C06_error_reports_refuted : forall c, d9_wrong c = false -> fix_k2 c = false -> exists ls s,
   run c init ls = Some s /\ stream_result s = Some RNil /\ first_res s = Some ENil /\
   rreason s = Some (RMaster 1236%Z) /\ canc_pre_ret s = false.
 Proof. exact error_reports_refuted. Qed.
@@ -51,7 +59,7 @@ Print Assumptions C06_error_reports_refuted.
 
 (* even "cancelled before Error() was called" is too strong: the filter reads the context after the
    receive (same schedule with CallError before Cancel) *)
-Theorem C06_error_reports_call_time_refuted : forall c, d9_wrong c = false -> exists ls s,
+Theorem C06_error_reports_call_time_refuted : forall c, d9_wrong c = false -> fix_k2 c = false -> exists ls s,
   run c init ls = Some s /\ stream_result s = Some RNil /\ first_res s = Some ENil /\
   rreason s = Some (RMaster 1236%Z) /\ canc_pre_call s = false.
 Proof. exact error_reports_call_time_refuted. Qed.
@@ -78,10 +86,122 @@ Theorem C06_error_carries_not_cancelled : forall c s r e, d9_wrong c = false -> 
 Proof. exact error_carries_not_cancelled. Qed.
 Print Assumptions C06_error_carries_not_cancelled.
 
+(* ---------- K2 repaired: fix_k2 c = true ---------- *)
+
+(* error_reports, the strong (DESIGN) form: Stream nil and Error() nil  =>  the caller had cancelled before
+   parseEvents returned (the point where Stream samples its context; a fortiori before Stream returned),
+   or the master sent EOF.  No cancellation after that point can produce a nil/nil end. *)
+Theorem C06_error_reports_strong : forall c s, fix_k2 c = true -> d9_wrong c = false -> reachable c s ->
+  stream_result s = Some RNil -> first_res s = Some ENil ->
+  canc_pre_pe s = true \/ rreason s = Some REof.
+Proof. exact error_reports_strong. Qed.
+Print Assumptions C06_error_reports_strong.
+
+(* error_carries, the strong form: Stream nil, the reader ended on a master ERR packet or a transport
+   failure, the caller had not cancelled before parseEvents returned  =>  Error() returns exactly that error,
+   whatever cancellations happen afterwards (during the deferred close, after Stream returned, before or
+   during the Error() call: s ranges over all reachable states) *)
+Theorem C06_error_carries_strong : forall c s r e, fix_k2 c = true -> d9_wrong c = false -> reachable c s ->
+  stream_result s = Some RNil -> rreason s = Some r -> (r = RTransport \/ exists code, r = RMaster code) ->
+  canc_pre_pe s = false -> first_res s = Some e -> e = EErr r.
+Proof. exact error_carries_strong. Qed.
+Print Assumptions C06_error_carries_strong.
+
+(* the ghost field is the schedule's: canc_pre_pe s holds exactly when a Cancel label occurs in the schedule
+   with no StreamDefer label (parseEvents returned, context sampled, deferred close entered) before it *)
+Theorem C06_canc_pre_pe_sound : forall c tr s, reach c tr s -> canc_pre_pe s = cancel_before_sample tr.
+Proof. exact canc_pre_pe_sound. Qed.
+Print Assumptions C06_canc_pre_pe_sound.
+
+Theorem C06_cancel_before_sample_spec : forall tr,
+  cancel_before_sample tr = true <-> exists tr1 tr2, tr = tr1 ++ LCancel :: tr2 /\ ~ In LStreamDefer tr1.
+Proof. exact cancel_before_sample_spec. Qed.
+Print Assumptions C06_cancel_before_sample_spec.
+
+(* hence both strong statements without ghost state *)
+Theorem C06_error_reports_strong_trace : forall c tr s, fix_k2 c = true -> d9_wrong c = false -> reach c tr s ->
+  stream_result s = Some RNil -> first_res s = Some ENil ->
+  cancel_before_sample tr = true \/ rreason s = Some REof.
+Proof. exact error_reports_strong_trace. Qed.
+Print Assumptions C06_error_reports_strong_trace.
+
+Theorem C06_error_carries_strong_trace : forall c tr s r e, fix_k2 c = true -> d9_wrong c = false -> reach c tr s ->
+  stream_result s = Some RNil -> rreason s = Some r -> (r = RTransport \/ exists code, r = RMaster code) ->
+  cancel_before_sample tr = false -> first_res s = Some e -> e = EErr r.
+Proof. exact error_carries_strong_trace. Qed.
+Print Assumptions C06_error_carries_strong_trace.
+
+(* the same with "before Stream returned" (canc_pre_ret, the ghost of the K2 refutations above) *)
+Theorem C06_error_reports_strong_ret : forall c s, fix_k2 c = true -> d9_wrong c = false -> reachable c s ->
+  stream_result s = Some RNil -> first_res s = Some ENil ->
+  canc_pre_ret s = true \/ rreason s = Some REof.
+Proof. exact error_reports_strong_ret. Qed.
+Print Assumptions C06_error_reports_strong_ret.
+
+Theorem C06_error_carries_strong_ret : forall c s r e, fix_k2 c = true -> d9_wrong c = false -> reachable c s ->
+  stream_result s = Some RNil -> rreason s = Some r -> (r = RTransport \/ exists code, r = RMaster code) ->
+  canc_pre_ret s = false -> first_res s = Some e -> e = EErr r.
+Proof. exact error_carries_strong_ret. Qed.
+Print Assumptions C06_error_carries_strong_ret.
+
+Theorem C06_canc_pre_ret_sound : forall c tr s, reach c tr s -> canc_pre_ret s = true -> cancel_before_return tr = true.
+Proof. exact canc_pre_ret_sound. Qed.
+Print Assumptions C06_canc_pre_ret_sound.
+
+Theorem C06_cancel_before_return_spec : forall tr,
+  cancel_before_return tr = true <-> exists tr1 tr2, tr = tr1 ++ LCancel :: tr2 /\ ~ In LStreamReturn tr1.
+Proof. exact cancel_before_return_spec. Qed.
+Print Assumptions C06_cancel_before_return_spec.
+
+(* s.endedUncancelled is true only after parseEvents ran and returned with no cancellation before that *)
+Theorem C06_ended_uncancelled_sound : forall c tr s, reach c tr s -> ended_uncancelled s = true ->
+  past_sample (ps s) = true /\ cancel_before_sample tr = false /\ s_chan s = true.
+Proof. exact ended_uncancelled_sound. Qed.
+Print Assumptions C06_ended_uncancelled_sound.
+
+(* non-vacuity: the K2 schedule (ERR arrives, the stream ends, Stream returns nil, Cancel, CallError,
+   ErrorStep) reports the master's error on the repaired tree and loses it without the K2 repair *)
+Example C06_k2_schedule_repaired :
+  (exists s, run cfg_fixed2 init sched_k2 = Some s /\ stream_result s = Some RNil /\ cancelled s = true /\
+             canc_pre_ret s = false /\ first_res s = Some (EErr (RMaster 1236%Z))) /\
+  (exists s, run cfg_fixed init sched_k2 = Some s /\ stream_result s = Some RNil /\ cancelled s = true /\
+             canc_pre_ret s = false /\ first_res s = Some ENil).
+Proof. split; eexists; (split; [vm_compute; reflexivity | repeat split]). Qed.
+
+(* a cancellation DURING the Error() call (after the call, before the filter) does not hide it either;
+   a cancellation before parseEvents returned still does (the stream then ended because of it) *)
+Example C06_k2_late_schedule_repaired :
+  match run cfg_fixed2 init sched_k2_late with
+  | Some s => stream_result s = Some RNil /\ canc_at_err s = true /\ first_res s = Some (EErr (RMaster 1236%Z))
+  | None => False
+  end.
+Proof. vm_compute. repeat split. Qed.
+Example C06_cancel_before_sample_still_filters :
+  match run cfg_fixed2 init
+    [LConnectOk; LStartOk; LArrive (PkERR 1236%Z); LReaderRecv; LReaderPutErr; LReaderCloseErr; LReaderCloseEv;
+     LParserSeeClosed; LCancel; LStreamDefer; LStreamReturn; LCallError; LErrorStep] with
+  | Some s => stream_result s = Some RNil /\ canc_pre_pe s = true /\ ended_uncancelled s = false /\
+              first_res s = Some ENil
+  | None => False
+  end.
+Proof. vm_compute. repeat split. Qed.
+(* cancelled while Stream is inside its deferred close: after the sample, before Stream returned — reported *)
+Example C06_cancel_during_close_reported :
+  match run cfg_fixed2 init
+    [LConnectOk; LStartOk; LArrive (PkERR 1236%Z); LReaderRecv; LReaderPutErr; LReaderCloseErr; LReaderCloseEv;
+     LParserSeeClosed; LStreamDefer; LCancel; LStreamReturn; LCallError; LErrorStep] with
+  | Some s => stream_result s = Some RNil /\ canc_pre_pe s = false /\ canc_pre_ret s = true /\
+              first_res s = Some (EErr (RMaster 1236%Z))
+  | None => False
+  end.
+Proof. vm_compute. repeat split. Qed.
+
+(* ---------- the trap variant ---------- *)
+
 (* the D9 repair must keep s.ctx the caller's context.  If Stream stored the derived context (cfg_trap),
    Error() would swallow every error: ... *)
-Theorem C06_trap_swallows_every_error : forall c s e, fix_d9 c = true -> d9_wrong c = true -> reachable c s ->
-  first_res s = Some e -> e = ENil.
+Theorem C06_trap_swallows_every_error : forall c s e, fix_d9 c = true -> d9_wrong c = true -> fix_k2 c = false ->
+  reachable c s -> first_res s = Some e -> e = ENil.
 Proof. exact trap_swallows_every_error. Qed.
 Print Assumptions C06_trap_swallows_every_error.
 
@@ -120,4 +240,15 @@ Example C06_explore_master_error :
     (outcomes (Sc cfg_trap [true] (TErr 1236%Z) [] KNever false false None) 5000) = Some [[0; 0; 0; 0; 0]].
 Proof. repeat split; vm_compute; reflexivity. Qed.
 
-Definition C06_structure := error_filter_shape.
+(* the same K2 scenario over all interleavings: lost with D9/D10 repaired only, reported with K2 repaired;
+   a cancellation that may fall anywhere after the last delivery gives both ends *)
+Example C06_explore_k2_repaired :
+  option_map (fun p => map code (fst p))
+    (outcomes (Sc cfg_fixed [false; true; true] (TErr 1236%Z) [] KAfterReturn false false None) 5000) = Some [[0; 0; 0; 0; 0]]
+  /\ option_map (fun p => map code (fst p))
+    (outcomes (Sc cfg_fixed2 [false; true; true] (TErr 1236%Z) [] KAfterReturn false false None) 5000) = Some [[0; 1; 0; 0; 0]]
+  /\ option_map (fun p => map code (fst p))
+    (outcomes (Sc cfg_fixed2 [false; true; true] (TErr 1236%Z) [] KNever false false None) 5000) = Some [[0; 1; 0; 0; 0]].
+Proof. repeat split; vm_compute; reflexivity. Qed.
+
+Definition C06_structure := (error_filter_shape, stream_samples_context_after_parseEvents).
